@@ -132,6 +132,10 @@ pub trait Subject {
     fn push(&mut self, _how: How, _id: u32) -> Result<(), u32> {
         panic!("subject does not take pushes")
     }
+    /// `Extend::extend` with an exact-size batch (ordered collections); false = not supported
+    fn extend(&mut self, _ids: &[u32]) -> bool {
+        false
+    }
     fn obs(&self) -> Obs;
     fn layout(&self) -> Option<Layout> {
         None
@@ -254,6 +258,12 @@ impl Subject for SFob {
             How::TryFront => self.0.try_push_front(c).map_err(|c| c.id),
         }
     }
+    fn extend(&mut self, ids: &[u32]) -> bool {
+        let v: Vec<Child> = ids.iter().map(|i| Child::new(*i)).collect();
+        let _g = enter_crate();
+        self.0.extend(v);
+        true
+    }
     fn obs(&self) -> Obs {
         let _g = enter_crate();
         Obs {
@@ -281,6 +291,12 @@ impl Subject for SFo {
             How::Front | How::TryFront => self.0.push_front(c),
         }
         Ok(())
+    }
+    fn extend(&mut self, ids: &[u32]) -> bool {
+        let v: Vec<Child> = ids.iter().map(|i| Child::new(*i)).collect();
+        let _g = enter_crate();
+        self.0.extend(v);
+        true
     }
     fn obs(&self) -> Obs {
         let _g = enter_crate();
